@@ -792,3 +792,21 @@ package raft
 //@   ensures  empty_log_tail: result1 == nil && logs.last == 0 ==> result0.lastLogIndex == 0
 //@   ensures  starts_as_follower: result1 == nil ==> result0.state == Follower && result0.logs == logs && result0.stable == stable
 //@   loop 1 entry config_scan_covers_log: snapshotIndex < MaxUint64 ==> index == snapshotIndex + 1
+
+// ---------------------------------------------------------------------------
+// C11: takeSnapshot ordering
+
+//@ interface FSMSnapshot.Persist(sink)
+//@   modifies nothing
+
+//@ interface FSMSnapshot.Release()
+//@   modifies nothing
+
+//@ func (r *Raft) takeSnapshot
+//@   requires nonnil: r != nil && r.snapshots != nil && r.logs != nil && r.logger != nil && r.trans != nil && typeis(r.conf.v, Config)
+//@   ensures  durable_before_publish: r.lastSnapshotIndex != old(r.lastSnapshotIndex) ==> snapDurable[r.lastSnapshotIndex]
+//@   ensures  nothing_removed_without_durable_snapshot: (exists i uint64 :: old(r.logs.has[i]) && !r.logs.has[i]) ==> snapDurable[r.lastSnapshotIndex]
+//@   ensures  removed_only_at_or_below_snapshot: forall i uint64 :: old(r.logs.has[i]) && !r.logs.has[i] ==> i <= r.lastSnapshotIndex
+//@   ensures  log_tail_untouched: r.lastLogIndex == old(r.lastLogIndex) && r.lastLogTerm == old(r.lastLogTerm) && r.currentTerm == old(r.currentTerm)
+//@   at call (*deferError).Error#1 assert fsm_snapshot_awaited_first: sent(r.fsmSnapshotCh) == old(sent(r.fsmSnapshotCh)) + 1 && sent(r.configurationsCh) == old(sent(r.configurationsCh))
+//@   at call SnapshotStore.Create#1 assert stamped_with_snapshot_request: arg1 == snapReq.index && arg2 == snapReq.term && arg4 == committedIndex && snapReq.index >= committedIndex
